@@ -10,6 +10,7 @@ import (
 	"io"
 	"os"
 	"path/filepath"
+	"regexp"
 	"runtime"
 	"runtime/debug"
 	"strings"
@@ -20,6 +21,7 @@ import (
 
 	"github.com/reeflective/readline"
 	"github.com/reeflective/readline/inputrc"
+	"github.com/rivo/uniseg"
 )
 
 type Scenario struct {
@@ -88,14 +90,14 @@ type Case struct {
 	Screen    bool         `json:"screen"`
 	Wrap      string       `json:"wrap"` // "" = all commands, "none", "probe"
 	Editor    string       `json:"editor"`
-	Vmin      int          `json:"vmin"`  // when Termios is set: VMIN / VTIME of the terminal before the call
+	Vmin      int          `json:"vmin"` // when Termios is set: VMIN / VTIME of the terminal before the call
 	Vtime     int          `json:"vtime"`
-	Termios   bool         `json:"termios"` // start from a non-default terminal state (VMIN, VTIME, IXON and ECHOE flipped)
-	Hold      bool         `json:"hold"`    // the terminal holds its answers to cursor queries from the start of every session
+	Termios   bool         `json:"termios"`  // start from a non-default terminal state (VMIN, VTIME, IXON and ECHOE flipped)
+	Hold      bool         `json:"hold"`     // the terminal holds its answers to cursor queries from the start of every session
 	HistSnap  bool         `json:"histsnap"` // log the contents of the bound sources in every begin/end event
-	Local     string       `json:"local"`   // local keymap set by the probe command "probe-setlocal"
-	RawOut    bool         `json:"rawout"`  // log the raw bytes written to the tty at every wait
-	DumpCfg   bool         `json:"dumpcfg"` // log the bind tables and variables after set-up
+	Local     string       `json:"local"`    // local keymap set by the probe command "probe-setlocal"
+	RawOut    bool         `json:"rawout"`   // log the raw bytes written to the tty at every wait
+	DumpCfg   bool         `json:"dumpcfg"`  // log the bind tables and variables after set-up
 	Sessions  [][]Action   `json:"sessions"`
 	HangMs    int          `json:"hangms"`
 }
@@ -533,6 +535,12 @@ func runCase(cs *Case, ci int, pty *ptyPair, em *emu, home string) (alive bool) 
 		em.mu.Lock()
 		m["cstyle"], m["hidden"], m["styled"], m["scroll"] = em.cstyle, em.hidden, em.styled, em.scroll
 		em.mu.Unlock()
+		m["glyphs"] = glyphsOf(string(*rl.Line()))
+		pl := cs.Prompt
+		if i := strings.LastIndexByte(pl, '\n'); i >= 0 {
+			pl = pl[i+1:]
+		}
+		m["pglyphs"] = glyphsOf(sgrRE.ReplaceAllString(pl, ""))
 	}
 	flushToks := func(s int) {
 		for _, t := range em.takeToks() {
@@ -841,6 +849,36 @@ func bytesInts(b []byte) []int {
 	out := make([]int, len(b))
 	for i, x := range b {
 		out[i] = int(x)
+	}
+	return out
+}
+
+var sgrRE = regexp.MustCompile("\x1b\\[[0-9;]*m")
+
+// glyphsOf splits a text into grapheme clusters [first code point, width, rune index, runes]; a tab is shown as five blanks.
+func glyphsOf(s string) [][]int {
+	out := [][]int{}
+	gr := uniseg.NewGraphemes(s)
+	ri := 0
+	for gr.Next() {
+		rs := gr.Runes()
+		switch {
+		case len(rs) == 1 && rs[0] == '\t':
+			for k := 0; k < 5; k++ {
+				n := 0
+				if k == 0 {
+					n = 1
+				}
+				out = append(out, []int{32, 1, ri, n})
+			}
+		case rs[0] == '\n':
+			for k := range rs { // CR LF clusters never occur in the buffer, but keep one entry per rune
+				out = append(out, []int{int(rs[k]), 0, ri + k, 1})
+			}
+		default:
+			out = append(out, []int{int(rs[0]), gr.Width(), ri, len(rs)})
+		}
+		ri += len(rs)
 	}
 	return out
 }
